@@ -851,9 +851,13 @@ func c16R11(c *Ctx) {
 		switch bo.Op {
 		case token.ADD:
 			ok := false
-			if m, isM := strip(bo.Y).(*ssa.BinOp); isM && m.Op == token.MUL {
-				a, b := exprOf(strip(m.X)), exprOf(strip(m.Y))
-				ok = (strings.HasSuffix(a, ".VotingPower") && b == "a1") || (strings.HasSuffix(b, ".VotingPower") && a == "a1")
+			for _, side := range []ssa.Value{bo.Y, bo.X} {
+				if m, isM := strip(side).(*ssa.BinOp); isM && m.Op == token.MUL {
+					a, b := exprOf(strip(m.X)), exprOf(strip(m.Y))
+					if (strings.HasSuffix(a, ".VotingPower") && b == "a1") || (strings.HasSuffix(b, ".VotingPower") && a == "a1") {
+						ok = true
+					}
+				}
 			}
 			c.R.Ob(rule, "accum+=power*times", ok, c.Pos(st), fname(f), "the increment is "+shorten(y))
 		case token.SUB:
